@@ -69,7 +69,7 @@ def snapshot(el):
         val = ([str(e) for e in rep.errors], [str(w) for w in rep.warnings])
     except Exception as e:
         val = 'validate raises ' + type(e).__name__
-    return (el.to_er7(), listing(el), val)
+    return (el.to_er7() + '\n with trailing children: ' + el.to_er7(trailing_children=True), listing(el), val)
 
 
 # ---------------------------------------------------------------------------------------------
@@ -99,7 +99,12 @@ def seg_rows(v, s):
     """table rows of a segment; a Z-segment has no table: its positions are plain text fields"""
     if s.startswith('Z'):
         return tuple(('%s_%d' % (s, i), i, ('leaf', None, 'ST', None, None, -1), (0, -1)) for i in range(1, 10))
-    return T.seg_fields(v, s)
+    rows = T.seg_fields(v, s)
+    if rows and rows[-1][2][2] == 'varies' and rows[-1][1]:
+        # open-ended segment (last field of varying type): positions beyond the table are addressable too
+        last = rows[-1][1]
+        rows = rows + tuple(('%s_%d' % (s, last + k), last + k, ('leaf', None, 'varies', None, None, -1), (0, -1)) for k in (1, 2, 4))
+    return rows
 
 
 def describe(case):
